@@ -1,8 +1,11 @@
 SPECIFICATION GSpec
 CONSTANTS MaxAddrs = 2
           NKinds = 3
+          MaxFA = 2
+          BothSrc = FALSE
           MaxList = 2
+          NRB = 4
           DoA = TRUE
           DoB = TRUE
-INVARIANTS Emit RulesSane
+INVARIANTS Emit
 CHECK_DEADLOCK FALSE
